@@ -28,7 +28,7 @@ THEOREMS = {
     "C09": [S + "fireTable_unique", S + "fire_rename'", S + "fireOf_rename'", S + "val_rename'", S + "val_run_rename'", S + "fireTrace_rename'", S + "WellRanked.rename'",
             S + "solution_extends", S + "fireTable_least", S + "gc_transparent", "SodiumVerif.Sched.transaction_result_unique", "SodiumVerif.Sched.sched_result_unique",
             G + "collect_sound_total"],
-    "C10": [S + n for n in ["listenerOutputs_eq", "unlisten_stops", "unlisten_deactivates", "listen_stream", "listen_cell_initial", "listen_cell_later",
+    "C10": [S + n for n in ["late_building_txn", "late_later_txn", "late_never_invents", "listenerOutputs_eq", "unlisten_stops", "unlisten_deactivates", "listen_stream", "listen_cell_initial", "listen_cell_later",
                             "strong_listener_survives_drop", "stmt_unlisten"]],
     "C11": [S + n for n in ["fire_substLoop", "fireTrace_substLoop", "val_run_substLoop", "stepTxn_substLoop", "fire_substCLoop", "fireTrace_substCLoop_wf",
                             "val_run_substCLoop_wf", "sloop_fires", "cloop_fires'", "sloop_unclosed_silent", "cloop_value", "double_loop_panics", "sample_before_loop_panics", "stmt_sloopclose", "stmt_sample",
@@ -55,7 +55,7 @@ MODULES = {
     "C06": ["SodiumVerif.Props.C06", "SodiumVerif.Props.StructMem"],
     "C07": ["SodiumVerif.Props.C07", "SodiumVerif.Props.C06", "SodiumVerif.Props.StructMem"],
     "C09": ["SodiumVerif.Props.C09", "SodiumVerif.Props.C09b", "SodiumVerif.Props.C06"],
-    "C10": ["SodiumVerif.Props.C10"],
+    "C10": ["SodiumVerif.Props.C10", "SodiumVerif.Props.C10b"],
     "C11": ["SodiumVerif.Props.C11", "SodiumVerif.Props.C11b", "SodiumVerif.Props.C11c"],
     "C12": ["SodiumVerif.Props.C12", "SodiumVerif.Props.C12c"],
     "C13": ["SodiumVerif.Props.C13", "SodiumVerif.Props.Expand"],
